@@ -6,6 +6,7 @@ import EupsModel.Props.C09Path
 import EupsModel.Props.C09Cmd
 import EupsModel.Props.C09Signal
 import EupsModel.Props.C09Homog
+import EupsModel.Props.C09Stale
 /-! C09 — exclusive database locks exclude every other holder under all interleavings.
 
 Property theorems only, about the code as it is now: the REPAIRED lock protocol (`Model/LockR.lean`, one transition =
